@@ -112,6 +112,7 @@ PROPS["C18"] = {
 PROPS["C06"] = {
     "quick_secs": 16,
     "thorough_secs": 360,
+    "memcheck_leg": 40,
     "totality": True,
     "min_evaluations": 20000,
     "technique": "differential trace monitor: generated machine-code programs lifted with translate_function_extended and executed by the reference IL interpreter vs the same bytes executed one machine instruction at a time (each instruction lifted on its own at its pc); the two sequences of (instruction address, IL operation) and the way they end must be identical; structural monitor on every recovered function",
@@ -330,9 +331,10 @@ PROPS["C05"] = {
     "quick_secs": 14,
     "thorough_secs": 420,
     "release_leg": True,
+    "memcheck_leg": 60,
     "totality": True,
     "min_evaluations": 500000,
-    "technique": "totality + well-formedness monitor: hostile byte strings lifted by all 7 translators x both unsupported-instruction policies under catch_unwind; harness-written IL well-formedness checker and guard-determinism evaluator judge every result; dead/hung workers are attributed to the in-flight input",
+    "technique": "totality + well-formedness monitor: hostile byte strings lifted by all 7 translators x both unsupported-instruction policies under catch_unwind; harness-written IL well-formedness checker and guard-determinism evaluator judge every result; dead/hung workers are attributed to the in-flight input; thorough adds a plain-release leg and a valgrind memcheck leg over the same workload (the disassemblers are C code behind FFI)",
     "rule": "uniform random bytes (x86: 1-15 bytes, prefixed/two-byte opcodes, 8-48 byte streams; fixed-width ISAs: 1-3 words incl. lengths not a "
             "multiple of 4), class templates of the C02/C03 generators with a random bit flipped, at addresses 0, page-straddling, around 2^32 and near "
             "(but not wrapping) 2^64; thorough adds a stratified sweep of every value of the top 16 bits x 4 random low halves for the 5 fixed-width "
